@@ -560,7 +560,7 @@ def run(R):
     R.rule = RULE
     R.require("clean-exit", "dispatch", "report", "json", "error-message", "interactive")
     R.assumptions = ["several version flags: any flagged version is accepted (unspecified)", "-v '' is interactive mode "
-                     "(argparse-equivalent to no -v)", "child processes get UTF-8 stdio; vectors are valid Unicode",
+                     "(argparse-equivalent to no -v)", "real child processes get UTF-8 stdio (in-process runs also use ASCII / Latin-1 / cp1252 streams); vectors are valid Unicode",
                      "an undefined v2 score may be printed as None or omitted",
                      "the literal value '--' is not generated: argparse itself drops it before the calculator runs"]
     R.pmap("shard", [(i, R.pick(25, 1200), "subprocess", R.seed) for i in range(16)])
